@@ -190,7 +190,9 @@ def kernel_shard(task):
     tier, seed, shard, n_cases, sanitize, cc = task
     cases = generate_cases(kernel_cases(tier), n_cases, seed * 7001 + shard)
     stats = Stats()
-    worker = Worker(module="harness.native.worker2")
+    # the LLVM module is generated in another process (as evaluate's is, relative to the CLI's C) under another hash
+    # seed: a kernel whose loop or summation order depends on set iteration order shows up as a three-way split
+    worker = Worker(module="harness.native.worker2", env={"PYTHONHASHSEED": str(1 + shard % 7)})
     try:
         for i in range(0, len(cases), BATCH):
             process_kernel_batch(cases[i : i + BATCH], stats, worker, sanitize, cc)
@@ -324,6 +326,18 @@ def ir_expr(draw, ty, depth):
         lt, rt = [("float", "float"), ("float", "float"), ("int", "float"), ("float", "int")][k]
         return [op, draw(ir_expr(lt, depth - 1)), draw(ir_expr(rt, depth - 1))]
     # bool
+    if depth >= 1 and draw(st.integers(0, 5)) == 0:
+        # short-circuit evaluation used as a bounds guard: the right operand reads t->dimensions[x] (4 cells) and must
+        # not be evaluated when the guard decides the result (comparisons are on ints: the LLVM back end has no fcmp).
+        # The C driver keeps dimensions in an exactly sized array (ASan) and the LLVM worker puts it right in front
+        # of an inaccessible page, so an eager evaluation is a crash, not a silent read.
+        x = ["Max", ["var", draw(st.sampled_from(INTV))], ["int", 0]] if draw(st.booleans()) else \
+            ["Max", ["Subtract", ["var", draw(st.sampled_from(INTV))], ["int", draw(st.integers(0, 2))]], ["int", 0]]
+        cmp_ = draw(st.sampled_from(["Equal", "NotEqual", "LessThan", "GreaterThan", "LessThanOrEqual", "GreaterThanOrEqual"]))
+        read = [cmp_, ["didx", x], draw(ir_expr("int", 0))]
+        if draw(st.booleans()):
+            return ["And", ["LessThan", x, ["int", 4]], read]
+        return ["Or", ["GreaterThanOrEqual", x, ["int", 4]], read]
     if depth == 0:
         if draw(st.booleans()):
             return ["bool", draw(st.booleans())]
@@ -365,7 +379,7 @@ def ir_programs(draw, tier):
     envs = []
     for _ in range(5):
         envs.append({
-            "ints": [draw(st.integers(-3, 3)) if draw(st.integers(0, 5)) else draw(st.sampled_from([-1000, 46340, 100000, -46341])) for _ in INTV],
+            "ints": [draw(st.integers(-3, 6)) if draw(st.integers(0, 5)) else draw(st.sampled_from([-1000, 46340, 100000, -46341])) for _ in INTV],
             "floats": [draw(st.sampled_from([0.0, 1.0, -1.5, 0.1, 3.25, 1e16, 1 / 3, -0.0, 1e-300, 123456.789])) for _ in FLTV],
         })
     return {"slots": slots, "envs": envs}
@@ -385,6 +399,8 @@ def to_ir(e):
         return A.BooleanLiteral(e[1])
     if k == "b2i":
         return A.BooleanToInteger(to_ir(e[1]))
+    if k == "didx":
+        return A.Variable("t").attr("dimensions").idx(to_ir(e[1]))
     return getattr(A, k)(to_ir(e[1]), to_ir(e[2]))
 
 
